@@ -26,6 +26,8 @@ Contracts (from the property text), mode SYM (data movement; integer + - with re
   reverse-map / reverse-own    X.reverse() through a map over m + d and on an owning tensor: element k becomes element n-1-k.
   map-view-assign    M(seq...) = <tensor>, M(seq...) += <tensor> through a map (compile-time acceptance + effect).
 The generic programs use neither `map = map` nor reverse() (both defective on the unchanged tree, kept in their own families).
+Programs on float/double buffers use the data-movement operations only (assignment, fill, zeros/ones, scalar-index and view
+writes); + and - appear in the int programs, where they are real 32/64-bit adders (element-wise float arithmetic is C02's subject).
 Excluded: the std::vector constructor (std::vector allocates: the no-allocation stub of the harness would fire; the
 constructor body is the same std::copy as the std::array one), stream output, "every misalignment" is the concrete set
 d in {0,1,2,3} elements (4..24 bytes), not a symbolic byte offset.
